@@ -203,7 +203,7 @@ func fromSim(r *simrt.Result, out *spec.Result) {
 	out.LogHash, out.ConflictSig = r.LogHash, r.ConflictSig
 	out.Faults, out.Probes, out.KnownHits, out.Locations = r.Faults, r.Probes, r.KnownHits, r.Locations
 	for _, d := range r.Decisions {
-		out.Decisions = append(out.Decisions, spec.Decision{T: d.T, L: d.L, To: d.To, Forced: d.Forced})
+		out.Decisions = append(out.Decisions, spec.Decision{T: d.T, L: d.L, To: d.To, Forced: d.Forced, Sel: d.Sel})
 	}
 	if r.Violation != nil {
 		out.Status = "violation"
@@ -226,7 +226,7 @@ func simConfig(s *spec.Spec, logPath string) simrt.Config {
 	if s.Decisions != nil {
 		c.Replay = true
 		for _, d := range s.Decisions {
-			c.Decisions = append(c.Decisions, simrt.Decision{T: d.T, L: d.L, To: d.To, Forced: d.Forced})
+			c.Decisions = append(c.Decisions, simrt.Decision{T: d.T, L: d.L, To: d.To, Forced: d.Forced, Sel: d.Sel})
 		}
 	}
 	for _, k := range s.Ignore {
